@@ -34,9 +34,10 @@ RULE = ("fresh clusters of 17 fixed shapes (plain, generic, generic-recursive, s
         "recursion, registered / lazily registered / recursive / field-level / LazyConversion conversions, class validators) + seeded random reference digraphs; "
         "a case = one concurrent public call (workload, shape, op, entry, datum, threads | schedule (k, j)) compared with its sequential twin; "
         "non-trivial = the cluster was used by >= 2 threads; distinct by hash.  Distinct cache-write orders and schedules are counted separately.")
-ASSUMPTIONS = ["shapes are restricted to reference graphs whose cycles do not overlap (every non-trivial SCC is one simple cycle; 'nested' is the "
-               "one audited exception): on graphs with overlapping cycles apischema's *sequential* recursion analysis already depends on "
-               "the order of first uses (separate finding, see docs/reports/C20.md), so 'what a sequential execution returns' is not one value",
+ASSUMPTIONS = ["the twin oracle needs the *sequential* result to be independent of the order of first uses: shapes whose reference cycles overlap "
+               "(fixed shape 'nested', one third of the random shapes) are only used after a run-time brute force over first-use orders "
+               "(all orders of the entry points, and every rotation with schema generation first) found no dependence; otherwise the "
+               "shape is a counted abstention (before commit 05c99a6 apischema's sequential analysis was order dependent on ~8 % of them)",
                "'every interleaving' is restated as: the interleavings executed (random preemption at 1 us, every single park point k of thread A x "
                "{B to completion, B to its j-th hook}, seeded random yields); evidence lists how many",
                "the sequential semantics of a call is given by a structurally identical twin cluster used by one thread (order-independence of the "
@@ -46,8 +47,7 @@ ASSUMPTIONS = ["shapes are restricted to reference graphs whose cycles do not ov
                "a wrong recursion-dictionary entry that the eviction follow-up cannot turn into a different result is reported as 'suspect' only"]
 
 OPS = ["deserialize", "serialize", "dschema", "sschema"]
-# fixed shapes with overlapping cycles that were checked offline over every analysis root x 60 random root orders
-OVERLAPPING_OK = {"nested"}
+
 _seq = [0]
 
 
@@ -281,6 +281,7 @@ class State:
         # the fixed shapes are split into 4 groups; a shard works on one group (twin baselines and order-safety checks are
         # the fixed cost of a shape), the shards of a group slice the group's schedule family between them
         self.rand_pool = []
+        self.n_overl = 0
         self.rot = env.shard
         self.groups = min(4, env.nshards)
         self.group = env.shard % self.groups
@@ -295,16 +296,15 @@ class State:
             ext = S.extend(shape)
             sig = S.shape_sig(shape)
             if sig not in self.safe:
-                if not (S.simple_cycles_only(shape) or shape["name"] in OVERLAPPING_OK):
-                    # by construction: with overlapping cycles the sequential analysis itself depends on the order of first uses
-                    self.safe[sig] = (False, "overlapping reference cycles (sequential result is order dependent by construction)")
-                elif shape["name"].startswith("rand"):
+                if shape["name"].startswith("rand") and S.simple_cycles_only(shape):
                     # generated without overlapping cycles (criterion validated offline by brute force over analysis roots);
                     # the twin is additionally built twice, in opposite call orders
                     self.safe[sig] = (True, None)
                 else:
                     self.safe[sig] = order_safe(self, shape)
                     self.env.count("order_safety_checks")
+                    if self.safe[sig][0] and not S.simple_cycles_only(shape):
+                        self.env.count("shapes_with_overlapping_cycles_admitted")
                 if not self.safe[sig][0]:
                     self.env.count("abstain:shape_sequentially_order_dependent")
                     note = f"sequential recursion analysis is order dependent / unsound on shape {shape['name']}: {self.safe[sig][1]}"
@@ -339,7 +339,14 @@ def evict(state):
     caches (maxsize 128: is_recursive, the method factories, DeserializationMethodFactory._method) drop the cluster"""
     import apischema
 
-    for i in range(150):
+    n = 150
+    try:  # stay above the largest lru size if someone changes it (cache_info is public functools API)
+        from apischema import cache as acache
+
+        n = max(n, max((f.cache_info().maxsize or 0) for f in acache._cached if hasattr(f, "cache_info")) + 22)
+    except Exception:
+        pass
+    for i in range(min(n, 2000)):
         tp = Literal[100000 + i]  # type: ignore
         apischema.deserialization_method(tp)
         apischema.serialization_method(tp)
@@ -604,7 +611,12 @@ def stress(state, workload, n_clusters, yield_p, until):
         for _ in range(per_batch):
             if brng.random() < (0.2 if env.quick() else 0.3):
                 if not state.rand_pool or (brng.random() < 0.4 and len(state.rand_pool) < (6 if env.quick() else 400)):
-                    state.rand_pool.append(S.random_shape(brng, brng.randrange(1 << 20)))
+                    # one in three: unconstrained digraph (overlapping cycles); it is only used if the brute force over
+                    # first-use orders finds the sequential analysis order independent on it (else: counted abstention)
+                    overl = brng.random() < 0.34 and state.n_overl < (2 if env.quick() else 60)
+                    state.n_overl += overl
+                    gen = S.random_digraph if overl else S.random_shape
+                    state.rand_pool.append(gen(brng, brng.randrange(1 << 20)))
                     shape = state.rand_pool[-1]
                 else:
                     shape = brng.choice(state.rand_pool)
@@ -901,7 +913,7 @@ def finish_coverage(cov, counters, tier):
         "schedules_parked": counters.get("schedules_parked", 0),
         "injected_yields": counters.get("injected_yields", 0),
         "hook_events": counters.get("hook_events", 0),
-        "nonmonotonic_writes (True->False)": counters.get("nonmonotonic_writes", 0),
+        "recursion-dictionary keys overwritten with a different value (True->False or flip)": counters.get("nonmonotonic_writes", 0),
         "suspect_not_observable": counters.get("suspect_not_observable", 0),
         "eviction_followups": counters.get("followups", 0),
     }
